@@ -452,11 +452,13 @@ def evaluate__avg(self: XPathFunction, context: ta.ContextType = None) \
             if isinstance(context, XPathSchemaContext):
                 return []
             raise self.error('FORG0006', err)
-        except OverflowError as err:
+        except (OverflowError, DecimalException) as err:
             raise self.error('FODT0002', err) from None
     elif all(isinstance(x, int) for x in values):
-        result = sum(cast(list[int], values)) / Decimal(len(values))
-        return int(result) if result % 1 == 0 else result
+        total = sum(cast(list[int], values))
+        if total % len(values) == 0:
+            return total // len(values)  # exact, also beyond the precision of the decimal context
+        return total / Decimal(len(values))
     elif all(isinstance(x, (int, Decimal)) for x in values):
         return sum(cast(list[Decimal], values)) / Decimal(len(values))
     elif all(not isinstance(x, DoubleProxy) for x in values):
